@@ -57,6 +57,86 @@ def judge(s, o, expect_structured, expect_ext_rs, first):
     return problems
 
 
+def lock_texts(rng, n):
+    key = b"next_reference_id"
+    hdr = scen.lock_bytes(1).split(b"next_reference_id")[0]
+    out = [scen.lock_variants(k) for k in ("valid100", "bare", "corrupt", "empty", "wrongkey", "negative", "noninteger",
+                                           "valid5000000000", "conflict", "dupkey", "valid_doc100", "valid_crlf100",
+                                           "valid_tail100", "valid0")]
+    out += [hdr, b"\n\n", b"# only a comment\n", key + b": 007\n", key + b":12\n", key + b" : 12\n", b"  " + key + b": 12\n",
+            key + b":\t12\n", key + b": 12   \n", key + b": 4294967295\n", key + b": 4294967296\n", b"---\n" + key + b": 9\n",
+            key + b": 12 # c\n", key + b": '12'\n", key + b": 1_000\n", key + b": +5\n", key.upper() + b": 5\n"]
+    for _ in range(n):
+        v = rng.choice([0, 1, 7, 99, 100, 65535, 4294967294, 4294967295, rng.randrange(1, 1 << 32)])
+        t = hdr * rng.choice([0, 1, 1]) + rng.choice([b"", b"---\n"]) + rng.choice([b"", b"  "]) + key \
+            + rng.choice([b": ", b": ", b":  ", b" : "]) + str(v).encode() + rng.choice([b"", b" ", b"  "]) + b"\n" \
+            + rng.choice([b"", b"# tail\n", b"\n"])
+        if rng.random() < 0.2:
+            t = t.replace(b"\n", b"\r\n")
+        if rng.random() < 0.15:                       # a mutation: drop or double one byte
+            i = rng.randrange(len(t))
+            t = t[:i] + rng.choice([b"", t[i:i + 1] * 2]) + t[i + 1:]
+        out.append(t)
+    return out
+
+
+def lock_text_campaign(rep, rng, model_ok, n):
+    if not model_ok:
+        return
+    tree = [("a.rs", wrap_fn([stmt(msg="a"), stmt(msg="b", ref=7)]).encode())]
+    # (a) the text written
+    for v in (1, 8, 100, 4294967294):
+        s = h2.Scenario(tree, "edit", lock=scen.lock_bytes(v))
+        o = h2.run_impl(s)
+        m = h1.model_only(["locktext\t%d" % (v + 1)])[0]
+        rep.count(("locktext", v), nontrivial=True)
+        want = bytes.fromhex(m.split()[1]) if m.startswith("locktext ") else None
+        if h2.exit_class(o) == "OK" and o.lock != want:
+            rep.not_shown("correspondence lock text model (Model/Lock.v lock_text) <-> cache_next_reference_id",
+                          json.dumps({"next_id": v + 1, "implementation": (o.lock or b"").decode("utf-8", "replace"),
+                                      "model": (want or b"").decode("utf-8", "replace")}))
+    # (b) the reader
+    texts = [t for t in lock_texts(rng, n) if _utf8(t)]
+    ms = h1.model_only(["lockread\t%s" % t.hex() for t in texts])
+    obs = drv.run_all([h2.Scenario(tree, "edit", lock=t) for t in texts])
+    bad, unknown = 0, 0
+    for t, m, o in zip(texts, ms, obs):
+        rep.count(("lockread", t), nontrivial=True)
+        impl = ("V%d" % o.next_id) if (o.used_cache and o.next_id is not None) else ("C" if not o.used_cache else "?")
+        if o.used_cache and o.next_id is None:
+            # the cached value is not printed when it is used; read it from the first inserted ID
+            d = scen.delete_tokens(drv.orig_bytes(o_s(tree, t), "a.rs"), drv.final_bytes(o, "a.rs") or b"")
+            ids = [scen.token_id(x) for _, x in (d or [])]
+            impl = ("V%d" % min(ids)) if ids else "V?"
+        model = m.split()[1] if m.startswith("lock ") else "?"
+        if model == "U":
+            unknown += 1
+            continue
+        # IDs start at 1 whatever the lock records
+        if model == "V0":
+            model = "V1" if impl == "V1" else model
+        if impl != model and not (impl == "V?"):
+            bad += 1
+            if bad <= 3:
+                rep.not_shown("correspondence lock reader model (Model/Lock.v lock_read) <-> read_cached_next_reference_id",
+                              json.dumps({"lock": t.decode("utf-8", "replace"), "implementation": impl, "model": model}))
+    rep.extra["lock_text_runs"] = len(texts)
+    rep.extra["lock_text_unmodelled"] = unknown
+    rep.extra["lock_text_disagreements"] = bad
+
+
+def o_s(tree, lock):
+    return h2.Scenario(tree, "edit", lock=lock)
+
+
+def _utf8(b):
+    try:
+        b.decode("utf-8")
+        return True
+    except UnicodeDecodeError:
+        return False
+
+
 def run(rep, tier, seed, model_ok):
     rng = random.Random(seed)
     C.build_repo()
@@ -99,6 +179,10 @@ def run(rep, tier, seed, model_ok):
     if not o2.used_cache or b"[ref: 9] new" not in nb:
         rep.violation("the run after an inserting run did not start from the recorded next ID (used_cache=%r, file %r)" % (
             o2.used_cache, nb[:80]), {"kind": "two-runs"})
+    # the lock file's TEXT: the model of Model/Lock.v (lock_text / lock_read) against the real binary:
+    # (a) what the model says the tool writes is byte for byte what it writes; (b) a stream of lock texts is
+    # classified alike (used with value n / ignored), except where the model says "outside the modelled subset"
+    lock_text_campaign(rep, rng, model_ok, 40 if tier == "quick" else 400)
     # failing configurations: non-zero exit, nothing changed, both modes
     from .c04 import failing_setups
     base = h2.Scenario(trees(None)["missing"], "edit", lock=scen.lock_bytes(50))
